@@ -320,6 +320,45 @@ func runC01(c *Ctx) {
 		}
 	}
 
+	// ---------------------------------------------------------------- R8
+	c.rule("R8", "an exchange returns only a buffer it received on its own reply channel", 4)
+	for _, rs := range []restoreSite{{relTransport, "TraditionalDnsConn", "exchange"}, {relTransport, "reusableConn", "exchange"}, {relTransport, "quicReservedExchanger", "ExchangeReserved"}, {relDoh, "Upstream", "ExchangeContext"}} {
+		f := c.fn(rs.rel, rs.recv, rs.name)
+		if f == nil {
+			continue
+		}
+		good, n := true, 0
+		why := ""
+		for _, r := range returnsOf(f) {
+			rv := returnedValues(r)[0]
+			if isNilConst(rv) {
+				continue
+			}
+			n++
+			// received directly, or a field of a received struct
+			src := rv
+			if ld, ok := src.(*ssa.UnOp); ok && ld.Op == token.MUL {
+				if fa, ok := ld.X.(*ssa.FieldAddr); ok {
+					if al, ok := fa.X.(*ssa.Alloc); ok {
+						for _, rr := range referrers(al) {
+							if st, ok := rr.(*ssa.Store); ok && st.Addr == ssa.Value(al) {
+								src = st.Val
+							}
+						}
+					}
+				}
+			}
+			if fl, ok := src.(*ssa.Field); ok {
+				src = fl.X
+			}
+			if _, ok := chanOfRecv(src); !ok {
+				good, why = false, exprStr(rv)
+			}
+		}
+		c.check(good && n > 0, "returns-received-reply@"+funcName(f), f.Pos(), "every non-nil result was received from the call's reply channel",
+			"the exchange can return "+why+", which was not received on its own reply channel")
+	}
+
 	// ---------------------------------------------------------------- R4
 	c.rule("R4", "the id written to the wire is the registered id, at the id offset of the framing", 4)
 	if inserter != nil {
